@@ -56,7 +56,8 @@ func init() {
 	// ------------------------------------------------------------------ C04
 	register("C04", func(c *engine.Ctx) {
 		c.Rule = "systematic: one object with 1..3 required keys at root / nested / array element / definition position, every non-empty subset of the required keys removed, plus present-null for nullable and absent optional; systematic over the KIND of the required property (28 kinds: scalars, bounded, nullable, arrays, structs, maps by value type, bare object, enums, formats, any, allOf, anyOf; inline and through a definition) at each of those positions, present / missing; definitions with overlapping required lists shared by several allOf compositions, every single deletion at every composed position; random: structured schemas of the tree fragment (objects, arrays, primitives, enums, nullable, $defs/$ref, depth <= 3), a fully populated valid document, and every single deletion of a required key at every object position. Verdict must equal the reference. Distinct = distinct (stream, verdicts, document shape)."
-		c.Proofs([]string{"GJS.Props.C04"}, []string{
+		c.Proofs([]string{"GJS.Props.C04", "GJS.Proofs.Stable"}, []string{
+			"GJS.Proofs.decode_stable",
 			"GJS.Proofs.fails_not_accepted", "GJS.Props.C04.rejects_missing", "GJS.Props.C04.cert_missing_le", "GJS.Props.C04.cert_rejects_missing",
 		})
 		var pcs []*core.PCase
@@ -190,7 +191,8 @@ func init() {
 	// ------------------------------------------------------------------ C03
 	register("C03", func(c *engine.Ctx) {
 		c.Rule = "random structured schemas of the tree fragment; a fully populated valid document; at every typed position (single type or [T,null], reached through properties, array items and $ref) the value is replaced by a value of every other JSON type (string, integer, non-integral number, boolean, array, object) and, where null is allowed, by null; plus typed positions built by composition (allOf / anyOf over object branches typed object, [object,null] or [null,object], inline or by $ref) with wrong-typed values for the whole position and for a member. Verdict must equal the reference. Distinct = distinct (position type, substituted type, verdicts)."
-		c.Proofs([]string{"GJS.Props.C03"}, []string{
+		c.Proofs([]string{"GJS.Props.C03", "GJS.Proofs.Stable"}, []string{
+			"GJS.Proofs.decode_stable",
 			"GJS.Proofs.fails_not_accepted", "GJS.Props.C03.top_mismatch", "GJS.Props.C03.cert_wrong_type_le",
 			"GJS.Props.C03.cert_rejects_wrong_type", "GJS.Props.C03.null_into_pointer", "GJS.Props.C03.fraction_into_int_fails",
 		})
@@ -283,7 +285,8 @@ func init() {
 	// ------------------------------------------------------------------ C02
 	register("C02", func(c *engine.Ctx) {
 		c.Rule = "random structured schemas (tree fragment, plus formats) with schema-directed VALID documents (boundary values of every constraint, optional properties present or absent, null where allowed, nested objects and arrays); every document the reference calls valid must be accepted and every non-empty declared value must re-appear unchanged, at the same place, in json.Marshal of the decoded value. Near-duplicates: pairs of schema nodes whose Go type names collide (sibling properties, definitions, definition vs property, array items) and whose schemas differ in exactly one keyword (24 perturbations: format, type, each bound, required, enum members, items, default, nullable, annotation only, identical), both orders, documents valid for the one and for the other at both positions. The broad random stream (all features, mutated documents) additionally ties model and implementation. Distinct = distinct (stream, verdicts, document shape)."
-		c.Proofs([]string{"GJS.Props.C02", "GJS.Proofs.Mono"}, []string{
+		c.Proofs([]string{"GJS.Props.C02", "GJS.Proofs.Mono", "GJS.Proofs.Stable"}, []string{
+			"GJS.Proofs.decode_err_mono", "GJS.Proofs.decode_stable",
 			"GJS.Props.C02.prim_roundtrip", "GJS.Props.C02.validators_only_reject_on_constraints", "GJS.Props.C02.unmarshal_accept_stable",
 			"GJS.Props.C02.rejected_forever_not_accepted", "GJS.Proofs.decode_ok_mono", "GJS.Proofs.okMono",
 			"GJS.Props.C02.numeric_accepts_valid_float", "GJS.Props.C02.string_accepts_valid_ascii", "GJS.Props.C02.array_accepts_valid",
